@@ -23,7 +23,21 @@ def run(tier, repo=None, tag="repo"):
     # "returns its first input unchanged and thereafter ..." restarts at reset(): the recurrence is about the stream since construction OR reset
     rep.rule("E4", "reset() restores the constructor state of EMA, TrueRange, ATR, MACD, KeltnerChannel, ChandelierExit and the Minimum/Maximum inside it (C04's rules), so the recurrences restart there; no other method writes their state", 8)
     import rules_c01
-    rules_c01.reset_premise(ir.load("default", repo, tag), rep, "E4", RESET_SCOPE)
+    F0 = ir.load("default", repo, tag)
+    rules_c01.reset_premise(F0, rep, "E4", RESET_SCOPE)
+    # "ChandelierExit is (Maximum(high) - m*ATR, Minimum(low) + m*ATR)" evaluated from scratch means the window extremes: E2 shows CE steps a
+    # Maximum on the highs and a Minimum on the lows; that those return the extreme of the last n values is C01's I6 / I7, re-run here
+    rep.rule("E5", "Minimum and Maximum (inside ChandelierExit) return the extreme of the current window (C01's I6 / I7)", 2)
+    import symex
+    from infra import Sink
+    from rules_c09 import _Map
+    from rules_c14 import mirror
+    m5 = _Map(rep, {"I6": "E5", "I7": "E5"})
+    try:
+        rules_c01.extreme_unit(F0, m5, "Minimum", "I6")
+        rules_c01.extreme_unit(F0, m5, "Maximum", "I7", transform=mirror)
+    except (symex.Unsupported, KeyError, IndexError, TypeError, AttributeError) as e:
+        Sink.bad(m5, "E5", "unrecognised", "Minimum/Maximum", "UNRECOGNISED idiom while establishing the window-extreme contract: %r" % (e,))
     rep.configs = configs
     rep.explanation = ("each clause of C02 is a one-step recurrence or a pointwise combination of component outputs; the implementation's step function "
                        "(output and post-state as gated terms over input and pre-state, nested indicators as uninterpreted step nodes) is compared with "
